@@ -22,3 +22,9 @@ package model
 //@ func Ratio.ReCalculateRatios
 //@ trusted
 //@ modifies fields(Ratio), fields(NodeLoadRatio)
+
+//@ func NamespaceStatus.Clone(n) (r)
+//@ trusted
+//@ modifies nothing
+//@ ensures r.Shards != nil && fresh(r.Shards) && r.ReplicationFactor == n.ReplicationFactor
+//@ note trusted: deep copy of the shard map (its content is not specified here)
